@@ -143,4 +143,66 @@ theorem moment_loop (c n : Val) (xs : List Val) (m0 : List Val) :
       | ok p =>
         simp only [ok_bind, append_lst, pure_bind, ih, bind_assoc, List.append_assoc, List.singleton_append]
 
+theorem gen_fvariance_accumulate (key : D.F1) :
+    Gen.fvariance_accumulate (V := Val) key = (fun acc i => do let k ← key i; toListAcc acc k) := by
+  funext acc i
+  simp [Gen.fvariance_accumulate, PyAlg.append]
+
+theorem lt_int (a b : Int) : (PyAlg.lt (Val.int a) (Val.int b) : Except Err Bool) = .ok (decide (a < b)) := rfl
+
+theorem lenV_of_elemsE (x : Val) (xs : List Val) (h : x.elemsE = .ok xs) : x.lenV = .ok (.int xs.length) := by
+  cases x <;> simp [Val.elemsE, Val.elems] at h <;> simp [Val.lenV, Val.elems, h]
+
+theorem pow_nat (d : Val) (n : Nat) : Val.pow d (.int n) = D.powV d n := rfl
+
+theorem sum_lst (ms : List Val) : (PyAlg.sum (Val.lst ms) : Except Err Val) = D.pySum ms := by
+  show Val.sumV _ = _
+  simp [Val.sumV, Val.elemsE, Val.elems, Val.lst, VList.toList_ofList]
+  rfl
+
+/-- the generated `_moment` on a Python value = the model's `momentV` -/
+theorem gen_moment (x c : Val) (n : Nat) : Gen.moment x c (.int n) = D.momentV x c n := by
+  simp only [Gen.moment, D.momentV, PyAlg.elems, PyAlg.lst]
+  cases hx : x.elemsE with
+  | error e => simp [bind, Except.bind]
+  | ok xs =>
+    simp only [ok_bind]
+    have hloop := moment_loop c (.int n) xs []
+    simp only [List.nil_append] at hloop
+    rw [hloop]
+    simp only [D.moment, PyAlg.len, lenV_of_elemsE x xs hx, PyAlg.int, lt_int, ok_bind, bind_assoc, pure_bind, pow_nat]
+    have hd : decide ((0 : Int) < (xs.length : Int)) = decide (0 < xs.length) := by
+      congr 1; simp
+    simp only [hd, sum_lst, PyAlg.div, PyAlg.none, decide_eq_true_eq]
+
+theorem gen_fvariance_result : Gen.fvariance_result (V := Val) = D.fvarianceResult := by
+  funext acc
+  simp only [Gen.fvariance_result, D.fvarianceResult, PyAlg.len, PyAlg.eq, PyAlg.int, PyAlg.flit, D.flit]
+  cases Val.lenV acc with
+  | error e => rfl
+  | ok n =>
+    simp only [ok_bind]
+    by_cases h : n = .int 0
+    · simp [h]
+    · have hm1 : Gen.moment acc (Val.int 0) (Val.int 1) = D.momentV acc (.int 0) 1 := gen_moment acc (.int 0) 1
+      simp only [beq_iff_eq, h, if_false, hm1]
+      cases D.momentV acc (.int 0) 1 with
+      | error e => rfl
+      | ok m =>
+        have hm2 : Gen.moment acc m (Val.int 2) = D.momentV acc m 2 := gen_moment acc m 2
+        simp only [ok_bind, hm2, bind_pure]
+
+theorem Link_formal_variance (key : D.F1) (r : Bool) : genPipe (Gen.fvariance_stages key r) = D.fvariance key r := by
+  simp only [genPipe, Gen.fvariance_stages, List.map, List.cons_append, List.nil_append, GStage.toStage, D.fvariance, Option.map,
+    gen_fvariance_accumulate, gen_fvariance_result]
+  rfl
+
+theorem gen_fsqrt_result : Gen.fstddev_result (V := Val) = (fun v => if v = .none then pure .none else Val.sqrt v) := by
+  funext v
+  by_cases h : v = .none <;> simp [Gen.fstddev_result, PyAlg.isNone, PyAlg.sqrt, PyAlg.none, h]
+
+theorem Link_formal_stddev (key : D.F1) (r : Bool) : genPipe (Gen.fstddev_stages key r) = D.fstddev key r := by
+  simp only [Gen.fstddev_stages, genPipe_append, Link_formal_variance, D.fstddev]
+  simp only [genPipe, List.map, GStage.toStage, gen_fsqrt_result, D.sqrtMap]
+
 end Rx
